@@ -22,6 +22,7 @@ import SmppVerif.Lemmas.SpecEncode
 import SmppVerif.Model.PduDecode
 import SmppVerif.Lemmas.SmRead
 import SmppVerif.Lemmas.TlvRead
+import SmppVerif.Lemmas.PduAgain
 
 namespace SmppVerif.Props.C04
 open SmppVerif SmppVerif.Pdu SmppVerif.Spec.Smpp SmppVerif.Lemmas
@@ -190,6 +191,20 @@ theorem udh_port_first_decoded :
       | .deliverSm s => (s.optionalParams, s.shortMessage)
       | _ => ([], [])) = .ok ([⟨0x020C, .int 183⟩, ⟨0x020F, .int 1⟩, ⟨0x020E, .int 8⟩], [97, 98]) := by decide +kernel
 
+/-- Sent again, the same bytes: `pdu()` changes the object it serialises (`encoding` as chosen by `smpp_encode`,
+    `_encoded_message` kept for short_message or cleared for message_payload); for every message of every class for
+    which it succeeds, a second call on the same object returns the same bytes and leaves the same encoding — so what the
+    conformance theorems say about the first serialisation holds for every later one. -/
+theorem resend_same_bytes (dflt : Enc) (m : Msg) (b : List Nat) (e : Option Enc) (h : pdu dflt m = .ok (b, e)) :
+    pduAgain dflt m = .ok (b, e) :=
+  PduAgain.pduAgain_eq dflt m b e h
+
+/-- non-vacuity: a text that goes to message_payload (300 octets), serialised twice -/
+example :
+    let m : Sm := { seq := 3, shortMessage := List.replicate 300 97, source := ⟨[49], 1, 1⟩, dest := ⟨[50], 1, 1⟩ }
+    (pdu encGsm (.submitSm m)).isOk = true ∧ pduAgain encGsm (.submitSm m) = pdu encGsm (.submitSm m) := by
+  decide +kernel
+
 end SmppVerif.Props.C04
 
 #print axioms SmppVerif.Props.C04.tlv_table
@@ -204,3 +219,4 @@ end SmppVerif.Props.C04
 #print axioms SmppVerif.Props.C04.decode_message_payload
 #print axioms SmppVerif.Props.C04.udh_port_first_decoded
 #print axioms SmppVerif.Props.C04.decode_optional_params
+#print axioms SmppVerif.Props.C04.resend_same_bytes
